@@ -5,6 +5,7 @@
 import Bexpr.Wire
 import Bexpr.Eval.Create
 import Bexpr.Eval.Dump
+import Bexpr.Go.WF
 import Bexpr.StrconvDriver
 import BexprGen.GoGrammar
 import BexprGen.GoActions
@@ -104,7 +105,14 @@ def outToString : Out → String
   | .panic => "P"
   | .unmodelled => "U"
 
+def optsWf (opts : List Opt) : Bool :=
+  opts.all fun o => match o with
+    | .unknownValue v => Any.wf v
+    | _ => true
+
 def evalLine (opts : List Opt) (expr : GoString) (datum : Any) (t : ReTable) : String :=
+  -- the hypotheses of the evaluator theorems are checked on every value the harness sends
+  if !(Any.wf datum && optsWf opts) then "WF?" else
   match createEvaluator goEnv goGrammar expr opts with
   | .err => "CE"
   | .panic => "CP"
@@ -127,6 +135,7 @@ def canonTop : Any → Any
   | v => v
 
 def filterLine (expr : GoString) (datum : Any) (t : ReTable) : String :=
+  if !(Any.wf datum) then "WF?" else
   match createFilter goEnv goGrammar expr with
   | .err => "CE"
   | .panic => "CP"
